@@ -1,7 +1,7 @@
 (* Case interpreter for C08 and C13: one case is a whole operation sequence
    against one fresh session,
      (seq OP ...)      OP = (attach fid afid TOKS) | (walk fid newfid (NAME ...) TOKS) | ...
-                       TOKS = (t t t), t = fail + 4*dir + 8*nq
+                       TOKS = (t t t), t = fail + 8*dir + 16*nq
    and the observation lists, per executed operation, the result class, the
    fid table afterwards (sorted by fid; what p9p.VerifFidTable reports) and
    the file-system calls made, by entry id. *)
@@ -11,7 +11,7 @@ Import ListNotations.
 Open Scope N_scope.
 
 Definition tok_of (s : sexp) : tok :=
-  let n := get_N s in Tok (n mod 4) (negb ((n / 4) mod 2 =? 0)) (n / 8).
+  let n := get_N s in Tok (n mod 8) (negb ((n / 8) mod 2 =? 0)) (n / 16).
 Definition toks_of (s : sexp) : list tok := map tok_of (get_list s).
 
 Definition op_of (c : sexp) : op * list tok :=
